@@ -495,7 +495,12 @@ class Interp:
         return RepoClass(mod, node)
 
     # ------------------------------------------------------------------ call
+    # every repository function entered since creation: {id(def node): (module, def node)} (coverage of the folds)
+    executed: dict | None = None
+
     def call(self, fn: RepoFunc, args, kwargs):
+        if self.executed is not None and id(fn.node) not in self.executed:
+            self.executed[id(fn.node)] = (fn.mod, fn.node)
         self.depth += 1
         if self.depth > self.max_depth:
             self.depth -= 1
@@ -629,6 +634,11 @@ class Interp:
                     self.exec_block(mod, st.orelse, env)
             except _Break:
                 pass
+            except RuntimeError as e:
+                # Python's own verdict on a loop that changes the dict/set it iterates over
+                if 'changed size during iteration' in str(e):
+                    raise InterpRaise('RuntimeError', st)
+                raise
         elif isinstance(st, ast.Return):
             raise _Return(self.eval(mod, st.value, env) if st.value is not None else None)
         elif isinstance(st, ast.Pass):
